@@ -87,6 +87,7 @@ func phaseA(r *ev.Run, rng *rand.Rand) {
 		e.threeWays(d.mk())
 		r.Count("directed_cases", 1)
 	}
+	timed("list-grid", e.listGrids)
 	timed("get-edit-set", e.getEditSet)
 	timed("concurrent-direct", func() { e.concurrentDirect(g, r.Pick(12, 100)) })
 }
@@ -183,6 +184,9 @@ func phaseB(r *ev.Run, rng *rand.Rand) {
 	defer ru.close()
 	g := &gen{rng: rng}
 	ru.runPhase(g, r.Pick(8, 40), r.Pick(45, 60))
+	if ru.ready() {
+		timed("list-grid-http", ru.httpListGrids)
+	}
 	if ru.ready() {
 		timed("concurrent-running", func() { ru.concurrentRunning(r.Thorough()) })
 	}
